@@ -5,6 +5,9 @@
      new_marks       = c09_new_entry_marks      (SymbolKindTable.set marks the table changed for a new entry)
      isnan_any       = c09_isnan_any            (builtin_isnan reduces with .any())
      conflict_raises = c09_conflict_raises      (SymbolKindTable.set re-raises a failing unify)
+     finder_restarts = c09_finder_restarts      (SymbolKindFinder starts another pass before giving up when kinds changed)
+     need_arrays     = c09_matrix_need_arrays   (matmul/transpose/linear_solve/svd infer a kind only from Array arguments)
+   The last two do not appear as premises: every theorem below holds for both of their values.
    The theorems that cite `eq_refl` for a switch check only against the repaired shape; for the other shape
    proofs/KindsMainProofs.v has the refutations every_assigned_refuted (witness wit_pow),
    soundness_refuted_stale (witness wit_stale) and builtins_refuted_isnan. *)
@@ -68,7 +71,8 @@ Print Assumptions C09_soundness_checked_partial.
    a <- array(n); x <- a; x <- <t> -- the Array kind absorbs the Scalar, no message is printed) *)
 Theorem C09_soundness_refuted : ~ full_soundness cfg0 keep0.
 Proof.
-  exact (full_soundness_false c09_power_returns_kind c09_new_entry_marks c09_isnan_any c09_conflict_raises).
+  exact (full_soundness_false c09_power_returns_kind c09_new_entry_marks c09_isnan_any c09_conflict_raises
+                              c09_finder_restarts c09_matrix_need_arrays).
 Qed.
 Print Assumptions C09_soundness_refuted.
 
